@@ -25,6 +25,9 @@ LBX = "urwid/widget/listbox.py:"
 WIDGET = Opaque("Widget")
 
 
+NOPOS = -7777  # stands for the `None` position of a (None, None) answer
+
+
 class ListWalkerProtocol(Protocol):
     kind = "ListWalker"
 
@@ -33,11 +36,29 @@ class ListWalkerProtocol(Protocol):
         g = PROTOCOLS["ListWalker"].call_quiet(st, w, "get_focus", {})
         return [neg(mk_bool(g[0].isnone)), g[1] == a["position"]]
 
+    def _ens_neighbour(st, w, a, r):
+        # (None, None) is modelled as (None, NOPOS): an integer no walker uses as a position (see `methods`)
+        return [ite(mk_bool(r[0].isnone), r[1] == NOPOS, both(neg(r[1] == NOPOS), neg(r[1] == a["position"])))]
+
+    def _ens_get_focus(st, w, a, r):
+        return [either(mk_bool(r[0].isnone), neg(r[1] == NOPOS))]
+
     methods = {
-        "get_focus": PMethod(Tup(Opt(WIDGET), Int), params=[]),
+        "get_focus": PMethod(Tup(Opt(WIDGET), Int), params=[], ensures=_ens_get_focus),
         "set_focus": PMethod(None, params=["position"], mutates=True, ensures=_ens_set_focus),
+        # (widget, position) of the neighbour, or (None, None) at the end of the list; functions of the walker's state.
+        # Positions are integers here; the position component of a (None, None) answer is modelled by the integer NOPOS,
+        # which is no position of any walker.  The code under contract looks at it in two places, both in render:
+        # `next_pos is not None` (next to `widget is not None` in the same `all(...)`: same truth value as long as the two
+        # components are None together) and `next_pos == next_next_pos` (a real position never equals NOPOS, as it
+        # never equals None).
+        # A neighbour is never the position asked about ("positions form a chain"): render's own consistency check
+        # raises ListBoxError("Next position after ... is invalid (points to itself)") for a walker that answers so.
+        # (SimpleListWalker(wrap_around=True) with ONE item does answer so -- outside this protocol.)
+        "get_prev": PMethod(Tup(Opt(WIDGET), Int), params=["position"], ensures=_ens_neighbour),
+        "get_next": PMethod(Tup(Opt(WIDGET), Int), params=["position"], ensures=_ens_neighbour),
     }
-    has = {"get_focus": True, "set_focus": True}
+    has = {"get_focus": True, "set_focus": True, "get_prev": True, "get_next": True}
 
     def call(self, ip, st, recv, name, args, kwargs):
         if name == "set_focus":
@@ -91,24 +112,15 @@ def focus_at(s, when, position):
 FILL = ListOf(Tup(WIDGET, Int, Dim))
 
 
-@contract(LBX + "ListBox.calculate_visible", property=(), assumed=True,
-          notes="the widgets drawn around the walker's focus at this size: (row offset, focus widget, focus position, focus rows, cursor), "
-                "(trim, [(widget, position, rows)] above, nearest first), (trim, [... below]); reads the walker (get_focus / get_prev / "
-                "get_next) and the widgets' rows() and moves no focus when no focus change is pending (its step 0 completes a pending "
-                "one: the caller here has just cleared it).  ~130 lines with three walker-driven loops building heterogeneous named "
-                "tuples: outside what was brought under contract; the bounded stand-in bounded/C08.py exercises it")
-class lb_calculate_visible:
-    self_shape = LISTBOX
-    params = dict(size=Tup(Int, Int), focus=Bool)
-    result = Tup(Tup(Int, WIDGET, Int, Dim, Opt(Tup(Int, Int))), Tup(Int, FILL), Tup(Int, FILL))
-    modifies = ()
+# ListBox.calculate_visible: verified contract in contracts/C07_listbox.py (it was an assumed contract here until the
+# chain model of the walker was written); its `requires`: no focus change pending, a list that is not empty, `lb_ok`.
 
-    def requires(s, a):
-        # a pending change would be completed (recursively) first; and the list is not empty
-        return both(is_none(s.set_focus_pending), neg(mk_bool(walker_focus(s)[0].isnone)))
 
-    def ensures(old, s, a, result):
-        yield "middle-is-the-walkers-focus", result[0][2] == walker_focus(old)[1]
+def lb_ok(s):
+    """Class invariant of the scroll state (established by __init__ and by every shift_focus): the focus widget sits
+    `offset_rows >= 0` rows below the top, or has the fraction 0 <= inum/iden < 1 of its rows cut off at the top."""
+    inum, iden = s.inset_fraction
+    return both(s.offset_rows >= 0, 0 <= inum, inum < iden)
 
 
 @contract(LBX + "ListBox.update_pref_col_from_focus", property=(), assumed=True,
@@ -119,31 +131,59 @@ class lb_update_pref_col:
     modifies = ("pref_col",)
 
 
-@contract(LBX + "ListBox.shift_focus", property="C08", replayable=False)
+def _shift_stored(old, s, a, tgt_rows):
+    """What shift_focus stores: an offset >= 0 as it is, with no inset; an inset -offset_inset > 0 as the fraction of
+    the focus widget's rows (with focus) it is of -- either way a scroll state that satisfies `lb_ok`."""
+    oi = a.offset_inset
+    return ite(oi >= 0, both(s.offset_rows == oi, s.inset_fraction[0] == 0, s.inset_fraction[1] == 1),
+               both(s.offset_rows == 0, s.inset_fraction[0] == -oi, s.inset_fraction[1] == tgt_rows))
+
+
+def _shift_refused(a, tgt_rows):
+    """The offset would put the focus widget outside the box: on or below the last row, or wholly above the top."""
+    oi = a.offset_inset
+    return ite(oi >= 0, oi >= a.size[1], oi + tgt_rows <= 0)
+
+
+def _focus_rows(s, a, when):
+    w = val(walker_focus(s, when)[0])
+    return PROTOCOLS["Widget"].call_quiet(cur(), w, "rows", dict(size=(a.size[0],), focus=True))
+
+
+@contract(LBX + "ListBox.shift_focus", property=("C08", "C07"), replayable=False)
 class lb_shift_focus:
     self_shape = LISTBOX
     params = dict(size=Tup(Int, Int), offset_inset=Int)
     raises = (_lbmod.ListBoxError,)
     modifies = ("offset_rows", "inset_fraction")
+    # raises exactly when the focus widget would have no row inside the box (both directions are clauses below)
+    raises_iff = {_lbmod.ListBoxError: lambda s, a: _shift_refused(a, _focus_rows(s, a, "now"))}
 
     def requires(s, a):
-        return neg(mk_bool(walker_focus(s)[0].isnone))
+        return both(neg(mk_bool(walker_focus(s)[0].isnone)), a.size[0] >= 0)
 
     def ensures(old, s, a, result):
+        rows = _focus_rows(old, a, "entry")
         yield "moves-no-focus", walker_focus(s, "exit")[1] == walker_focus(old, "entry")[1]
         yield "invalidated", count_ev(s.trace, "_invalidate") == 1
-        yield "offset-stored", implies(a.offset_inset >= 0, both(s.offset_rows == a.offset_inset, s.inset_fraction[0] == 0, s.inset_fraction[1] == 1))
+        yield "offset-or-inset-stored", _shift_stored(old, s, a, rows)
+        yield "a-focus-row-inside-the-box", neg(_shift_refused(a, rows))
+        yield "scroll-state-sane", lb_ok(s)
 
     def ensures_callee(old, s, a, result):
         # (the walker is not touched: nothing to say about it at a call site)
-        yield "offset-stored", implies(a.offset_inset >= 0, both(s.offset_rows == a.offset_inset, s.inset_fraction[0] == 0, s.inset_fraction[1] == 1))
+        rows = _focus_rows(old, a, "now")
+        yield "offset-or-inset-stored", _shift_stored(old, s, a, rows)
+        yield "a-focus-row-inside-the-box", neg(_shift_refused(a, rows))
+        yield "scroll-state-sane", lb_ok(s)
 
     def on_raise(old, s, a, exc):
-        yield "only-for-an-offset-outside-the-box-or-the-widget", either(a.offset_inset >= a.size[1], a.offset_inset < 0)
+        yield "only-for-an-offset-outside-the-box-or-the-widget", _shift_refused(a, _focus_rows(old, a, "entry"))
+        yield "nothing-stored", both(s.offset_rows == old.offset_rows, s.inset_fraction[0] == old.inset_fraction[0], s.inset_fraction[1] == old.inset_fraction[1], count_ev(s.trace, "_invalidate") == 0)
         yield "moves-no-focus", walker_focus(s, "now")[1] == walker_focus(old, "entry")[1]
 
     def on_raise_callee(old, s, a, exc):
-        yield "only-for-an-offset-outside-the-box-or-the-widget", either(a.offset_inset >= a.size[1], a.offset_inset < 0)
+        yield "only-for-an-offset-outside-the-box-or-the-widget", _shift_refused(a, _focus_rows(old, a, "now"))
 
 
 CURSOR_ARG = Union(Const(None), Tup(Int), Tup(Int, Int))
@@ -194,7 +234,8 @@ class lb_set_focus_complete:
     loops = {0: Loop(invariant=lambda v: True), 1: Loop(invariant=lambda v: True)}
 
     def requires(s, a):
-        return both(a.size[0] >= 0, a.size[1] >= 1, neg(is_none(s.set_focus_pending)))
+        # (size below the bound of the widget protocol, scroll state sane: what calculate_visible asks of its callers)
+        return both(a.size[0] >= 0, a.size[1] >= 1, a.size[0] < DIMMAX, a.size[1] < DIMMAX, lb_ok(s), neg(is_none(s.set_focus_pending)))
 
     def ensures(old, s, a, result):
         yield "pending-change-cleared", is_none(s.set_focus_pending)
